@@ -10,7 +10,7 @@ MODULES = ['LLRP.Model.Codec', 'LLRP.Model.Schema', 'LLRP.Model.Bytes', 'LLRP.Pr
 RULE = ('per type: valid encodings of generated values, every truncation point (sampled when > 80 bytes in quick), every plausible TLV length '
         'field set to 0,1,2,3,4,len-1,len+1,len+4,0xffff, type codes flipped (neighbour, TV-for-TLV, reserved bit), 16-bit fields forced to '
         '0/1/0xffff/len/len+1 at random offsets, byte corruption, trailing junk, short TV/TLV shaped inputs, random strings; plus 64 KiB random '
-        'inputs with time/allocation measured. Outcome class AND decoded value must equal the model. distinct = distinct (type, bytes); '
+        'inputs with time/allocation measured; per type a valid encoding with each 16-bit position (first 64) forced to 0xffff and cut shortly after, and short all-0xff inputs, with the allocation of the UnmarshalBinary call alone measured (bound 48 x input + 16 KiB). Outcome class AND decoded value must equal the model. distinct = distinct (type, bytes); '
         'non-trivial = input that is not a plain valid encoding (model answers err) or decodes to a value with sub-parameters')
 ASSUMPTIONS = ['decode model = unmarshal templates with every read guarded (LLRP.Model.Codec), derived attributes computed by the generator\'s rules',
                'wall-clock and heap are measured on the explored inputs (5 s watchdog per decode; TotalAlloc on 64 KiB inputs), not proved']
@@ -19,6 +19,11 @@ TRUSTED = ['reflection walker between Go structs and the canonical value text (h
 
 def classify(res, r, e, o):
     ty, n = cc.shape_key(r)
+    if r.startswith('resource-bound') and o.startswith('balloon'):
+        ty = r.split(' ')[1]
+        res.violation('decode-balloon:%s' % ty, 'decoder of %s allocates out of proportion to its input: %s' % (ty, o[:300]), 'input', True,
+                      case=[r], expected=[e], observed=[o[:2000]])
+        return
     if o in ('panic', 'timeout', 'modified-input', 'balloon', 'slow'):
         key = 'decode-%s:%s' % (o, ty)
         res.violation(key, 'decoder of %s: %s on a %d-byte input (model: %s)' % (ty, o, n, e.split(' ')[0]), 'input', True,
